@@ -1,4 +1,6 @@
 import MesaModel.Proofs.Signals
+import MesaModel.Proofs.SignalsReentrant
+import MesaModel.Proofs.SignalsSlices
 /-!
 # C16 — signals describe every change exactly once, to exactly the subscribers
 
@@ -144,7 +146,8 @@ theorem C16_assign_payload (s : St) (n : Nat) (v : Int) :
     for the list `n` — with their `old` / `new` / `index` payloads, `old` being checked against the copy —
     to a copy of the list as it was yields the list as it is afterwards.  Covers whole-list assignment,
     `[]=`, slice assignment, `del` (index and slice), `insert`, `append`, `pop`, `remove`, `extend`, `+=`,
-    `reverse`, `clear`, and rejected calls (no signal, no change). -/
+    `reverse`, `clear`, assignment to and deletion of extended slices (open bounds, any step), and rejected
+    calls (no signal, no change). -/
 theorem C16_signals_track_list (s : St) (op : Op) (n : Nat) (hobs : ∀ v, op ≠ .assign n v) :
     replay ((s.lists n).getD []) ((emitted s op).filter fun sig => sig.name == n) =
       some (((step s op).1.lists n).getD []) := by
@@ -210,27 +213,31 @@ theorem C16_replica_all_histories (s : St) (ops : List Op) (n : Nat) (hobs : ∀
     exact ih (step s op).1 (fun v hv => hobs v (by simp [hv]))
 
 /-- **A subscribed listener receives exactly these signals**: a live handler that is subscribed exactly once
-    to every signal type of `n` is called, in emission order, with exactly the signals emitted for `n` — so
-    by `C16_signals_track_list` its copy stays identical to the real list. -/
+    to the type of every signal the operation emits for `n` (e.g. subscribed once with `All()` for the type: the
+    hypothesis speaks of the types that occur, not of all five — a plain Observable has `change` only) is called, in
+    emission order, with exactly the signals emitted for `n` — so by `C16_signals_track_list` its copy stays identical
+    to the real list; `C16_listener_replica_all_histories` composes the two over a history. -/
 theorem C16_listener_receives_all (s : St) (op : Op) (n h : Nat)
-    (hsub : ∀ t, ((s.reg.subs n t).filter s.alive).count h = 1) (ds : List (Nat × Sig))
-    (ho : (step s op).2 = .ok ds) :
+    (hsub : ∀ sig ∈ emitted s op, sig.name = n → ((s.reg.subs n sig.type).filter s.alive).count h = 1)
+    (ds : List (Nat × Sig)) (ho : (step s op).2 = .ok ds) :
     (ds.filter fun d => d.1 == h && d.2.name == n).map (·.2) = (emitted s op).filter fun sig => sig.name == n := by
   have key : ∀ sigs : List Sig,
+      (∀ sig ∈ sigs, sig.name = n → ((s.reg.subs n sig.type).filter s.alive).count h = 1) →
       ((sigs.flatMap (liveDeliveries s)).filter fun d => d.1 == h && d.2.name == n).map (·.2) =
         sigs.filter fun sig => sig.name == n := by
     intro sigs
     induction sigs with
-    | nil => rfl
+    | nil => intro _; rfl
     | cons sig sigs ih =>
-      rw [List.flatMap_cons, List.filter_append, List.map_append, ih, List.filter_cons]
+      intro hsub
+      rw [List.flatMap_cons, List.filter_append, List.map_append, ih (fun g hg => hsub g (by simp [hg])), List.filter_cons]
       by_cases hname : sig.name = n
       · have h1 : (liveDeliveries s sig).filter (fun d => d.1 == h && d.2.name == n) = [(h, sig)] := by
           unfold liveDeliveries
           rw [List.filter_map]
           have : ((fun d : Nat × Sig => d.1 == h && d.2.name == n) ∘ fun x => (x, sig)) = fun x => x == h := by
             funext x; simp [hname]
-          rw [this, List.filter_beq, hname, hsub sig.type]; rfl
+          rw [this, List.filter_beq, hname, hsub sig (by simp) hname]; rfl
         simp [h1, hname]
       · have h1 : (liveDeliveries s sig).filter (fun d => d.1 == h && d.2.name == n) = [] := by
           unfold liveDeliveries
@@ -243,7 +250,58 @@ theorem C16_listener_receives_all (s : St) (op : Op) (n h : Nat)
   · rw [h'] at ho; cases ho
   · rw [h'] at ho; injection ho with ho; subst ho; rw [hem]; rfl
   · rw [h'] at ho; injection ho with ho; subst ho; rw [hop]; rfl
-  · rw [h'] at ho; injection ho with ho; subst ho; exact key _
+  · rw [h'] at ho; injection ho with ho; subst ho; exact key _ hsub
+
+/-- the signals handler `h` was called with for the observable `n` over a history, in order -/
+def deliveriesTo (h n : Nat) : List Out → List Sig
+  | [] => []
+  | .ok ds :: os => (ds.filter fun d => d.1 == h && d.2.name == n).map (·.2) ++ deliveriesTo h n os
+  | .err _ :: os => deliveriesTo h n os
+
+/-- at every step of the history, handler `h` is alive and subscribed exactly once to the type of every signal that
+    step emits for `n` (decidable; e.g. subscribed once with `All()` and never unsubscribed, cleared or dropped) -/
+def subscribedThroughout (n h : Nat) : St → List Op → Bool
+  | _, [] => true
+  | s, op :: ops =>
+    ((emitted s op).all fun sig => sig.name != n || ((s.reg.subs n sig.type).filter s.alive).count h == 1) &&
+      subscribedThroughout n h (step s op).1 ops
+
+/-- **A listener's own deliveries reconstruct the list, ∀ histories** (the replica theorem composed with the
+    deliveries): a handler that stays subscribed — once — to every signal type the ObservableList `n` emits during a
+    history, and applies the signals *it is called with* to its copy, has after the history exactly the real list;
+    whatever else happens in between (other handlers subscribing, unsubscribing, dying, rejected calls, operations on
+    other observables). -/
+theorem C16_listener_replica_all_histories (s : St) (ops : List Op) (n h : Nat) (hobs : ∀ v, .assign n v ∉ ops)
+    (hsub : subscribedThroughout n h s ops = true) :
+    replay ((s.lists n).getD []) (deliveriesTo h n (run s ops).2) = some (((run s ops).1.lists n).getD []) := by
+  have key : ∀ (ops : List Op) (s : St), subscribedThroughout n h s ops = true →
+      deliveriesTo h n (run s ops).2 = (allEmitted s ops).filter fun sig => sig.name == n := by
+    intro ops
+    induction ops with
+    | nil => intro s _; rfl
+    | cons op ops ih =>
+      intro s hs
+      simp only [subscribedThroughout, Bool.and_eq_true, List.all_eq_true, Bool.or_eq_true, bne_iff_ne, ne_eq,
+        beq_iff_eq] at hs
+      have hs1 : ∀ sig ∈ emitted s op, sig.name = n → ((s.reg.subs n sig.type).filter s.alive).count h = 1 := by
+        intro sig hm hn
+        rcases hs.1 sig hm with h' | h'
+        · exact absurd hn h'
+        · exact h'
+      rw [run_cons, allEmitted, List.filter_append, ← ih _ hs.2]
+      cases ho : (step s op).2 with
+      | ok ds =>
+        simp only [deliveriesTo]
+        rw [C16_listener_receives_all s op n h hs1 ds ho]
+      | err e =>
+        simp only [deliveriesTo]
+        rcases step_kind s op with ⟨e', _, hem⟩ | ⟨r, h', _, _⟩ | ⟨x, _, h'⟩ | ⟨s1, p, h', _, _⟩
+        · rw [hem]; rfl
+        · rw [h'] at ho; cases ho
+        · rw [h'] at ho; cases ho
+        · rw [h'] at ho; cases ho
+  rw [key ops s hsub]
+  exact C16_replica_all_histories s ops n hobs
 
 /-- **Independence from the iteration order of the signal-type sets** (needs the repaired loop variable):
     two classes that differ only in the order in which Python iterates each `signal_types` set produce the
@@ -274,5 +332,215 @@ example : (run (init exDecls) [.observe .all (.one .append) 7, .lassign 1 [], .o
     [.err .value, .ok [], .ok [], .ok [],
      .ok [(7, ⟨1, .append, .none, .int 5, .int 0⟩), (7, ⟨1, .append, .none, .int 5, .int 0⟩)], .ok [], .ok []] := by
   decide
+
+/-- non-vacuity of `C16_listener_replica_all_histories` (and of the hypothesis of `C16_listener_receives_all` for a
+    class that has a plain Observable too): handler 7 subscribes with `All()` to every type of the list 1; then the
+    list is assigned, appended to, inserted into, reversed, popped with an index out of range (rejected), extended and
+    shortened, while handler 3 subscribes, is garbage-collected (`drop`) and the Observable 0 is assigned: 7 stays
+    subscribed throughout, and replaying what *it* was called with gives the list -/
+def exListenerOps : List Op :=
+  [.lassign 1 [1, 2], .lappend 1 5, .observe .all .all 3, .linsert 1 0 4, .assign 0 9, .drop 3, .lreverse 1,
+   .lpop 1 9, .lextend 1 [8, 9], .ldel 1 0]
+def exListenerSt : St := (run (init exDecls) [.observe (.one 1) .all 7]).1
+
+example : subscribedThroughout 1 7 exListenerSt exListenerOps = true := by decide
+example : replay [] (deliveriesTo 7 1 (run exListenerSt exListenerOps).2) = some [2, 1, 4, 8, 9] ∧
+    (run exListenerSt exListenerOps).1.lists 1 = some [2, 1, 4, 8, 9] ∧
+    (run exListenerSt exListenerOps).2[7]? = some (.err .index) := by decide
+/-- the listener checks `old` for every signal type, `change` included: a `change` whose `old` is not its copy does
+    not fit (so the replica theorems also say that the `old` payload of every whole-list assignment is the list as it
+    was) -/
+example : applySig [1, 2] ⟨1, .change, .list [1], .list [7], .none⟩ = none ∧
+    applySig [1, 2] ⟨1, .change, .list [1, 2], .list [7], .none⟩ = some [7] := by decide
+/-- … and a handler that was garbage-collected in between is not subscribed throughout -/
+example : subscribedThroughout 1 3 exListenerSt exListenerOps = false := by decide
+
+/-! ### extended slices: `lst[a:b:c] = vs`, `del lst[a:b:c]` with open bounds, steps other than 1, negative steps -/
+
+/-- **An extended slice is rejected exactly when Python rejects it**: `ValueError` for step 0 and — for a step other
+    than 1 — for a number of items different from the number of selected positions; nothing changes, nothing is
+    signalled then (`C18_signals_reject_unchanged`). -/
+theorem C16_slicex_set_rejected_iff (n : Nat) (d : List Int) (sl : Slc) (vs : List Int) :
+    (∃ e, pSetSliceX n d sl vs = .error e) ↔
+      (sl.c.getD 1 = 0 ∨ (sl.c.getD 1 ≠ 1 ∧ ∀ idx, sl.indices d.length = some idx → vs.length ≠ idx.length)) := by
+  unfold pSetSliceX getSliceX setSliceX Slc.indices
+  cases ha : sl.adjust d.length with
+  | none =>
+    have h0 : sl.c.getD 1 = 0 := by
+      unfold Slc.adjust at ha
+      simp only at ha
+      split at ha
+      · assumption
+      · cases ha
+    simp [h0]
+  | some t =>
+    obtain ⟨start, stop, step⟩ := t
+    obtain ⟨h0, hst, _, _⟩ := Slc.adjust_bounds ha
+    subst hst
+    simp only [Option.map_some]
+    by_cases h1 : sl.c.getD 1 = 1
+    · simp [h1]
+    · by_cases hl : vs.length = ((List.range (sliceLen start stop (sl.c.getD 1))).map
+          fun (j : Nat) => (start + (j : Int) * sl.c.getD 1).toNat).length
+      · simp [h1, h0, hl]
+      · simp only [List.length_map, List.length_range] at hl
+        simp [h1, h0, hl]
+
+/-- **Every position an extended slice selects exists**, whatever the bounds (open, negative, beyond the end) and
+    the step: the payload `old` of the signal lists real items. -/
+theorem C16_slicex_positions_exist {sl : Slc} {len : Nat} {idx : List Nat} (h : sl.indices len = some idx) :
+    ∀ k ∈ idx, k < len :=
+  Slc.indices_in_range h
+
+/-- **An assignment to a slice with a step other than 1 touches only the selected positions**: the list keeps its
+    length and every other item. -/
+theorem C16_slicex_extended_set_frame {d d' : List Int} {sl : Slc} {vs : List Int} (hc : sl.c.getD 1 ≠ 1)
+    (h : setSliceX d sl vs = some d') :
+    d'.length = d.length ∧ ∀ idx, sl.indices d.length = some idx → ∀ k, k ∉ idx → d'.getD k 0 = d.getD k 0 := by
+  unfold setSliceX at h
+  cases ha : sl.adjust d.length with
+  | none => simp [ha] at h
+  | some t =>
+    obtain ⟨start, stop, step⟩ := t
+    obtain ⟨_, hst, _, _⟩ := Slc.adjust_bounds ha
+    cases hi : sl.indices d.length with
+    | none => simp [ha, hi] at h
+    | some idx =>
+      simp only [ha, hi] at h
+      rw [if_neg (by rw [hst]; exact hc)] at h
+      split at h
+      · cases h
+      · injection h with h
+        subst h
+        refine ⟨foldl_set_length _ _, fun idx' hidx' k hk => ?_⟩
+        injection hidx' with hidx'
+        subst hidx'
+        exact foldl_set_other _ _ k fun p hp hpk => hk (hpk ▸ (List.of_mem_zip hp).1)
+
+/-- non-vacuity / what Python does: `d[::2] = [7, 8, 9]`, `d[::-1]` selects everything backwards, `del d[1::2]`, a
+    wrong number of items and step 0 are rejected -/
+example : setSliceX [0, 1, 2, 3, 4] ⟨none, none, some 2⟩ [7, 8, 9] = some [7, 1, 8, 3, 9] := by decide
+example : getSliceX [0, 1, 2, 3, 4] ⟨none, none, some (-1)⟩ = some [4, 3, 2, 1, 0] := by decide
+example : getSliceX [0, 1, 2, 3, 4] ⟨some (-2), some (-9), some (-2)⟩ = some [3, 1] := by decide
+example : delSliceX [0, 1, 2, 3, 4] ⟨some 1, none, some 2⟩ = some [0, 2, 4] := by decide
+example : setSliceX [0, 1, 2, 3, 4] ⟨none, none, some 2⟩ [7, 8] = none := by decide
+example : getSliceX [0, 1, 2] ⟨none, none, some 0⟩ = none := by decide
+example : setSliceX [0, 1, 2, 3, 4] ⟨some 3, some 1, none⟩ [7] = some [0, 1, 2, 7, 3, 4] := by decide
+
+/-! ### the derived methods by their signals
+
+`extend`, `+=` and `clear` are loops over primitives in the model (as in `MutableSequence`); here is what they signal,
+stated declaratively — which signals, with which `old` / `new` / `index`, and the resulting list — without the loops and
+without the state machine (`specAppends`, `specClears` in `Proofs/SignalsSlices.lean` are closed forms). -/
+
+/-- **`extend(vs)`**: the list becomes `d ++ vs`, and exactly one `append` per item is signalled, in order, the `k`-th
+    with `new` = the item and `index` = `len(d) + k` (the position at which it arrives); nothing else. -/
+theorem C16_extend_signals (n : Nat) (d vs : List Int) :
+    listOp n d (.lextend n vs) = .ok (d ++ vs, specAppends n d.length vs) := by
+  have h := mExtend_acc n vs d []
+  simp only [listOp, mExtend, h, List.nil_append]
+
+/-- **`lst += vs`**: the signals of `extend(vs)`, then one `change` whose `old` and `new` are both the extended list
+    (the descriptor's `__set__` is handed the list object itself). -/
+theorem C16_iadd_signals (n : Nat) (d vs : List Int) :
+    listOp n d (.liadd n vs) =
+      .ok (d ++ vs, specAppends n d.length vs ++ [⟨n, .change, .list (d ++ vs), .list (d ++ vs), .none⟩]) := by
+  have h := mExtend_acc n vs d []
+  simp only [listOp, mExtend, h, List.nil_append]
+
+/-- **`clear()`**: the list becomes empty, and exactly one `remove` per item is signalled, from the last item to the
+    first, each with `old` = the item removed and `index` = -1 (it is `pop()` until the list is empty); nothing else. -/
+theorem C16_clear_signals (n : Nat) (d : List Int) :
+    listOp n d (.lclear n) = .ok ([], specClears n d) := by
+  simp only [listOp, mClear_spec]
+
+example : specAppends 1 2 [7, 8] = [⟨1, .append, .none, .int 7, .int 2⟩, ⟨1, .append, .none, .int 8, .int 3⟩] := by decide
+example : specClears 1 [4, 5, 6] = [⟨1, .remove, .int 6, .none, .int (-1)⟩, ⟨1, .remove, .int 5, .none, .int (-1)⟩,
+    ⟨1, .remove, .int 4, .none, .int (-1)⟩] := by decide
+
+/-! ### handlers that subscribe / unsubscribe / clear while they are being notified
+
+`runR progs s ops`: the same machine, but handler `h`, whenever it is called, makes the registry calls `progs h`
+(`observe`, `unobserve`, `clear_all_subscriptions`, with names / types / `All()`) before it returns.  One round of
+`_mesa_notify` (G13 repaired) = `roundLoop`: the subscriber list as it was when the signal was emitted is walked in
+order; the registry the calls act on is the live one. -/
+
+/-- Handlers that make no calls are the passive handlers of all theorems above: the two machines coincide. -/
+theorem C16_reentrant_passive_is_run {progs : Nat → List Act} (hp : ∀ h, progs h = []) (s : St) (ops : List Op) :
+    runR progs s ops = run s ops :=
+  runR_passive hp s ops
+
+/-- **A round of notification leaves the registry to the handlers** (fails with G13, where the list the round
+    started from was written back and undid every `unobserve` / `clear_all_subscriptions` made meanwhile): after the
+    round the registry is what the calls of the handlers that were called, in the order they were called, made of
+    it — apart from the dead references dropped from the list of the signal. -/
+theorem C16_reentrant_round_registry (progs : Nat → List Act) (r : Reg Nat) (alive : Nat → Bool) (n : Nat) (t : SigType) :
+    let called := (r.deliverR progs alive n t).2
+    let r' := r.acts alive (called.flatMap progs)
+    (r.deliverR progs alive n t).1 = r'.setSubs n t ((r'.subs n t).filter alive) := by
+  obtain ⟨new, h1, h2, _, _⟩ := roundLoop_spec progs alive n t (r.subs n t) r []
+  simp only [Reg.deliverR, h1, h2, List.nil_append]
+
+/-- **Only subscribers are called — "after `unobserve` or `clear_all_subscriptions` a handler receives nothing more",
+    also inside a round**: the handlers called for a signal are taken, in order, from the live subscribers the signal
+    had when it was emitted, and each of them is, when its turn comes, still subscribed in the registry as the calls
+    of the handlers called before it have left it. -/
+theorem C16_reentrant_called_are_subscribed (progs : Nat → List Act) (r : Reg Nat) (alive : Nat → Bool) (n : Nat)
+    (t : SigType) :
+    let called := (r.deliverR progs alive n t).2
+    called.Sublist ((r.subs n t).filter alive) ∧
+    ∀ pre h post, called = pre ++ h :: post →
+      alive h = true ∧ h ∈ (r.acts alive (pre.flatMap progs)).subs n t := by
+  obtain ⟨new, h1, _, h3, h4⟩ := roundLoop_spec progs alive n t (r.subs n t) r []
+  simp only [Reg.deliverR, h1, List.nil_append]
+  exact ⟨h3, h4⟩
+
+/-- **Every handler nobody unsubscribes is called, once per subscription**: a live handler that none of the calls made
+    during the round takes out of the list of the signal (`Act.keeps`: e.g. `observe` of anything, `unobserve` of
+    another handler, `clear_all_subscriptions` of another observable) receives the signal exactly as often as it is
+    subscribed. -/
+theorem C16_reentrant_untouched_called_once_per_subscription (progs : Nat → List Act) {r : Reg Nat} (w : r.WF)
+    (alive : Nat → Bool) (n : Nat) (t : SigType) (h : Nat) (hal : alive h = true)
+    (hk : ∀ g ∈ r.subs n t, ∀ a ∈ progs g, a.keeps alive h n t) :
+    (r.deliverR progs alive n t).2.count h = (r.subs n t).count h := by
+  have := roundLoop_complete progs alive n t h hal (r.subs n t) r [] w hk id
+  simpa [Reg.deliverR] using this
+
+/-- **The registry is the history of all registry calls, those made by handlers included** (∀ classes, ∀ histories,
+    ∀ handler programs): after any history each subscriber list holds — as far as live handlers are concerned —
+    exactly what the loop-free table `specSubs` says for the history in which every operation is followed by the
+    calls of the handlers it reached, in the order they were reached. -/
+theorem C16_reentrant_registry_is_call_history {ds : List Decl} (hds : DeclsOK ds) (progs : Nat → List Act)
+    (ops : List Op) :
+    Refines (runR progs (init ds) ops).1
+      (specSubs (init ds).reg (flatOps progs ops (runR progs (init ds) ops).2)) :=
+  (runR_refines (init_wf hds) progs ops rfl (fun _ _ => rfl)).2
+
+/-! non-vacuity: handlers 1 (one-shot: unsubscribes itself), 2 (passive), 3 (unsubscribes 2), 4 (clears the observable),
+    5 (subscribes 2) on the Observable 0 of `exDecls` -/
+
+def exProgs : Nat → List Act
+  | 1 => [.unobserve (.one 0) (.one .change) 1]
+  | 3 => [.unobserve .all .all 2]
+  | 4 => [.clear (.one 0)]
+  | 5 => [.observe (.one 0) .all 2]
+  | _ => []
+
+/-- a one-shot handler is called once (with G13 it stayed subscribed and was called for every later signal) -/
+example : (runR exProgs (init exDecls) [.observe (.one 0) (.one .change) 1, .observe .all .all 2, .assign 0 1,
+      .assign 0 2]).2.map (fun o => match o with | .ok ds => ds.map (·.1) | .err _ => []) =
+    [[], [], [1, 2], [2]] := by decide
+
+/-- a handler unsubscribed by a handler called before it does not get the signal in flight, nor any later one;
+    `clear_all_subscriptions` inside a handler holds; a handler subscribed inside a round is called from the next
+    signal on -/
+example : (runR exProgs (init exDecls) [.observe .all .all 3, .observe .all .all 2, .assign 0 1, .assign 0 2,
+      .observe (.one 0) .all 4, .observe (.one 0) .all 2, .assign 0 3, .assign 0 4,
+      .observe (.one 0) .all 5, .assign 0 5, .assign 0 6]).2.map
+        (fun o => match o with | .ok ds => ds.map (·.1) | .err _ => []) =
+    [[], [], [3], [3], [], [], [3, 4], [], [], [5], [5, 2]] := by decide
+
+/-- non-vacuity of `Act.keeps` in `C16_reentrant_untouched_called_once_per_subscription` -/
+example : (Act.observe (.one 0) .all 2).keeps (fun _ => true) 7 0 .change := Act.keeps_observe _ _ _ _ _ _ _
 
 end Mesa.Signals
